@@ -396,7 +396,7 @@ def _blocks(draw, k, allow_groups=True):
 
 
 @st.composite
-def model_specs(draw, profile: Profile, min_feats=1, max_feats=12, with_ctcs=True, allow_wide=True):
+def model_specs(draw, profile: Profile, min_feats=1, max_feats=12, with_ctcs=True, allow_wide=True, ctc_mode=None):
     n = draw(st.integers(min_feats, max_feats))
     names = draw(distinct(profile.names, n, profile.unique_key))
     if n >= 2 and profile.variants and draw(st.integers(0, 2)) == 0:
@@ -467,7 +467,8 @@ def model_specs(draw, profile: Profile, min_feats=1, max_feats=12, with_ctcs=Tru
     if allow_wide and profile.wide and profile.group and draw(st.integers(0, 11)) == 0:
         _add_wide_group(draw, profile, feats, names)
     ctcs = []
-    if with_ctcs and profile.ctc_max and profile.simple_ops and n >= 2 and draw(st.integers(0, 4)) == 0:
+    if with_ctcs and profile.ctc_max and profile.simple_ops and n >= 2 and (
+            ctc_mode == "structured" or draw(st.integers(0, 4)) == 0):
         for j, e in enumerate(_structured_ctcs(draw, feats[0], profile.simple_ops, profile.ctc_max)):
             ctcs.append({"name": profile.ctc_names(draw, j) if profile.ctc_names else f"C{j}", "ast": e})
     elif with_ctcs and profile.ctc_max:
@@ -550,7 +551,15 @@ def _structured_ctcs(draw, root, ops, ctc_max):
         forms.append(lambda a, b: ["NOT", ["AND", T(a), T(b)]])
     if not forms:
         return []
-    homogeneous = draw(st.sampled_from(forms)) if draw(st.booleans()) else None
+    # a list of requires-like, of excludes-like or of equivalence constraints is the most common constraint section
+    main = [f for f, ok in ((lambda a, b: ["IMPLIES", T(a), T(b)], "IMPLIES" in ops),
+                            (lambda a, b: ["REQUIRES", T(a), T(b)], "REQUIRES" in ops),
+                            (lambda a, b: ["EXCLUDES", T(a), T(b)], "EXCLUDES" in ops),
+                            (lambda a, b: ["EQUIVALENCE", T(a), T(b)], "EQUIVALENCE" in ops),
+                            (lambda a, b: ["EQUIVALENCE", T(a), T(b)], "EQUIVALENCE" in ops)) if ok]
+    homogeneous = None
+    if draw(st.booleans()):
+        homogeneous = draw(st.sampled_from(main)) if main and draw(st.booleans()) else draw(st.sampled_from(forms))
 
     def pair():
         how = draw(st.sampled_from(["same-relation", "other-relation", "parent-child", "ancestor", "any", "any"]))
@@ -568,7 +577,7 @@ def _structured_ctcs(draw, root, ops, ctc_max):
         return draw(st.sampled_from(all_names)), draw(st.sampled_from(all_names))
 
     out = []
-    for _ in range(draw(st.integers(1, max(1, ctc_max)))):
+    for _ in range(draw(st.integers(1, max(1, ctc_max + 2)))):
         a, b = pair()
         out.append((homogeneous or draw(st.sampled_from(forms)))(a, b))
     return out
